@@ -21,3 +21,17 @@ Theorem C09_client_pending_is_queue_head : forall c t ls, Forall wf_lab ls ->
   let s := run ls (init c t) in pend s <> 0 -> exists rest, q s = pend s :: rest.
 Proof. exact pending_is_head_S1. Qed.
 Print Assumptions C09_client_pending_is_queue_head.
+
+(** Server endpoint, every state: the lookup is per connection -- a reply whose id is not pending on
+    that same connection (stale, duplicated, unsolicited, or pending on another client) changes nothing. *)
+From Verif Require Import M1.Containers M1.Server M1.ServerProofs.
+Theorem C09_server_foreign_reply_is_noop : forall s c r k,
+  (pendof s c <> r \/ r = 0 \/ mem c (conns s) = false) -> sstep (SReply c r k) s = s.
+Proof. exact s_foreign_reply_noop. Qed.
+Print Assumptions C09_server_foreign_reply_is_noop.
+
+Theorem C09_server_foreign_reply_erasable : forall l1 l2 s c r k,
+  (pendof (srun l1 s) c <> r \/ r = 0 \/ mem c (conns (srun l1 s)) = false) ->
+  srun (l1 ++ SReply c r k :: l2) s = srun (l1 ++ l2) s.
+Proof. exact s_foreign_reply_erasable. Qed.
+Print Assumptions C09_server_foreign_reply_erasable.
